@@ -221,6 +221,77 @@ fn c22_stream_drains_in_order_and_ends_after_final() {
     }
 }
 
+// ---- add_msg: a publication is queued BEHIND what is already pending. From every state (payload tags make every
+// message identifiable), after add_msg(m) a polling consumer receives a subsequence of (previously pending ++ [m]) in
+// that order, never the same message twice, and everything previously pending that was final-or-before stays.
+#[cfg(kani)]
+fn any_state_tagged() -> (State, [u64; 2], u8) {
+    // (state, tags of the pending statuses in delivery order, how many)
+    let k: u8 = kani::any();
+    kani::assume(k <= 8);
+    let t1: u64 = kani::any();
+    let t2: u64 = kani::any();
+    kani::assume(t1 != t2 && t1 != 0 && t2 != 0);
+    let which: bool = kani::any();
+    let nonfinal = |t: u64, which: bool| -> TransactionStatus {
+        if which { TransactionStatus::Submitted(Arc::new(statuses::Submitted(t))) } else { TransactionStatus::PreConfirmationSuccess(Arc::new(statuses::PreConfirmationSuccess(t))) }
+    };
+    let fin = |t: u64| -> TransactionStatus { TransactionStatus::Success(Arc::new(statuses::Success(t))) };
+    match k {
+        0 => (State::Empty, [0, 0], 0),
+        1 => (State::Submitted(nonfinal(t1, true)), [t1, 0], 1),
+        2 => (State::Preconfirmed(nonfinal(t1, false)), [t1, 0], 1),
+        3 => (State::EarlySuccess(fin(t1)), [t1, 0], 1),
+        4 => (State::Success(nonfinal(t1, which), fin(t2)), [t1, t2], 2),
+        5 => (State::Failed, [0, 0], 0),
+        6 => (State::LateFailed(nonfinal(t1, which)), [t1, 0], 1),
+        7 => (State::SenderClosed(fin(t1)), [t1, 0], 1),
+        _ => (State::Closed, [0, 0], 0),
+    }
+}
+
+//@ harness kind=proof tier=quick timeout=600
+#[cfg(kani)]
+#[kani::proof]
+fn c22_add_msg_queues_behind_pending() {
+    let (state, pend, _npend) = any_state_tagged();
+    let mut s = tx_status_stream::with_state_for_verif(state);
+    let kind: u8 = kani::any();
+    kani::assume(kind <= 6);
+    let tm: u64 = kani::any();
+    kani::assume(tm != 0 && tm != pend[0] && tm != pend[1]);
+    let (m, _) = mk_msg(kind, tm);
+    s.add_msg(m);
+    // drain: tags of delivered status messages in order (0 = failure marker / nothing)
+    let mut out: [u64; 4] = [0; 4];
+    let mut n = 0usize;
+    let mut i = 0;
+    while i < 4 {
+        if let Some(x) = s.try_next() { out[n] = id_of(&x).2; n += 1; }
+        i += 1;
+    }
+    kani::cover!(n == 2 && out[1] == tm, "[C22.status-stream.add_msg.cover-new-message-delivered-second]");
+    // position of each delivered tag in the reference order (pending..., new)
+    let pos = |t: u64| -> usize { if t == 0 { 9 } else if t == pend[0] { 0 } else if t == pend[1] { 1 } else if t == tm { 2 } else { 8 } };
+    let mut k = 0;
+    let mut last = 0usize;
+    let mut ordered = true;
+    let mut known = true;
+    while k < 4 {
+        if k < n && out[k] != 0 {
+            let p = pos(out[k]);
+            if p == 8 { known = false; }
+            if k > 0 && out[k - 1] != 0 && p <= last { ordered = false; }
+            last = p;
+        }
+        k += 1;
+    }
+    kani::assert(known, "[C22.status-stream.add_msg.delivers-only-pending-or-the-new-message]");
+    kani::assert(ordered, "[C22.status-stream.add_msg.new-message-is-delivered-after-everything-pending-and-nothing-twice]");
+    // (a pending NON-final status may be superseded by a newer non-final one for a subscriber that does not drain: the
+    //  statement allows dropped intermediate statuses, so that is not an obligation)
+}
+
 // Vacuity canary: "the sender never closes" must FAIL.
 //@ harness kind=canary tier=quick expect=C22.status-stream.canary.never-closes timeout=600
 #[cfg(kani)]
